@@ -156,6 +156,8 @@ def run(ctx):
         r = rnd.random()
         K = gen.multi_core_kripke(rnd)[0] if r < 0.35 else gen.core_tail_kripke(rnd)[0] if r < 0.6 else gen.rand_kripke(rnd, rnd.choice([4, 5, 6]), density=rnd.choice([0.2, 0.3]))
         g = gen.recurrence_formulas(rnd)
+        if gen.temporal_count(g) > 4 or len(fam_r) >= (350 if q else 6000):
+            continue
         f = (rnd.choice('EEA'), g)
         if rnd.random() < 0.2:
             f = ('A', ('G', ('imp', Q, ('not', ('E', g))))) if gen.temporal_count(g) <= 4 else f
@@ -163,9 +165,9 @@ def run(ctx):
     # generalised fairness under E on sparse structures with 5-7 states (a conjunction of recurrences is satisfiable only on a
     # cycle that meets EVERY conjunct; one-shot states off the cycles must not count)
     lits = [P, Q, ('not', P), ('not', Q)]
-    for _ in range(500 if q else 8000):
+    for _ in range(350 if q else 6000):
         K = gen.rand_kripke(rnd, rnd.choice([5, 6, 7]), density=rnd.choice([0.12, 0.18, 0.25]))
-        k = rnd.choice([2, 2, 3])
+        k = 2
         g = ('and',) + tuple(('G', ('F', rnd.choice(lits))) for _i in range(k))
         f = ('E', g) if rnd.random() < 0.8 else ('A', ('G', ('imp', rnd.choice(lits), ('not', ('E', g)))))
         fam_r.append({'K': K, 'f': f})
